@@ -47,11 +47,16 @@ fn m6(m: &Matrix) -> String {
     format!("{}:{}:{}:{}:{}:{}", bits(m.a), bits(m.b), bits(m.c), bits(m.d), bits(m.e), bits(m.f))
 }
 
-/// identity of an inline image as the check plants it: (width << 16) | (height << 8) | first data byte
+/// identity of an inline image as the check plants it: (data length << 24) | (width << 16) | (height << 8) | first data byte
+pub fn planted_id(w: u8, h: u8, b: u8) -> u64 {
+    (((w as u64) * (h as u64)) << 24) | ((w as u64) << 16) | ((h as u64) << 8) | b as u64
+}
+
 pub fn image_id(img: &pdf::object::ImageXObject) -> u64 {
     let d: &pdf::object::ImageDict = &img.inner.info;
-    let first = img.inner.data(&NoResolve).ok().and_then(|v| v.first().copied()).unwrap_or(0);
-    ((d.width as u64) << 16) | ((d.height as u64) << 8) | first as u64
+    let data = img.inner.data(&NoResolve).map(|v| v.to_vec()).unwrap_or_default();
+    let first = data.first().copied().unwrap_or(0);
+    ((data.len() as u64) << 24) | ((d.width as u64) << 16) | ((d.height as u64) << 8) | first as u64
 }
 
 pub fn show_op(op: &Op) -> String {
@@ -191,7 +196,7 @@ pub fn show_tok(t: &Tok) -> String {
     match t {
         Tok::Prim(p) => format!("P{}", show_prim(p)),
         Tok::Kw(s) => format!("K{}", hex(s.as_bytes())),
-        Tok::Img(Some((w, h, b))) => format!("I{}", ((*w as u64) << 16) | ((*h as u64) << 8) | *b as u64),
+        Tok::Img(Some((w, h, b))) => format!("I{}", planted_id(*w, *h, *b)),
         Tok::Img(None) => "Ie".into(),
     }
 }
